@@ -2,7 +2,7 @@ CONSTANTS
   Cfgs <- C05Cfgs
   Apis = {"query", "gai"}
   Nests = {"none"}
-  Kinds = {"ok", "wrongid", "wrongname", "wrongtype", "wrongaddr", "flipcase", "ok_wrongclient", "stale_ok", "servfail"}
+  Kinds = {"ok", "wrongid", "wrongname", "wrongtype", "wrongaddr", "flipcase", "ok_wrongclient", "stale_ok", "servfail", "batch_tc_flipcase", "batch_formerr_wrongname", "batch_ok_ok"}
   Faults = {}
   Extras = {"timeout", "process"}
   MaxReq = 5
